@@ -45,23 +45,42 @@ type TBroker struct {
 	MaxVer   map[int16]int16
 	FetchMax int // records per fetch response
 
-	mu      sync.Mutex
-	conns   []*TConn
-	log     []Msg
-	stall   bool
-	cutKey  int16
-	cutNth  int // 1-based count over all connections; 0 = no cut
-	cutAt   int
-	seen    map[int16]int
-	lastLen map[int16]int // length of the last complete response frame per api key
-	seq     int
-	cutTs   int64           // timestamp field of the list-offsets request whose response was cut (0 if none / other api)
-	lens    map[int16][]int // lengths of all response frames per api key, in order of arrival
+	mu    sync.Mutex
+	conns []*TConn
+	log   []Msg
+	stall bool
+	// unapplied: the request whose response is cut is lost before the broker applied it (a produce request is not
+	// appended to the log): only a retry that carries the records again gets them stored
+	unapplied bool
+	dropThis  bool  // set by serve for the request at hand
+	prodRecs  []int // records carried by each produce request, in arrival order
+	cutKey    int16
+	cutNth    int // 1-based count over all connections; 0 = no cut
+	cutAt     int
+	seen      map[int16]int
+	lastLen   map[int16]int // length of the last complete response frame per api key
+	seq       int
+	cutTs     int64           // timestamp field of the list-offsets request whose response was cut (0 if none / other api)
+	lens      map[int16][]int // lengths of all response frames per api key, in order of arrival
 }
 
 func NewTBroker(topic string) *TBroker {
 	return &TBroker{ID: 1, Topic: topic, FetchMax: 4, seen: map[int16]int{}, lastLen: map[int16]int{}, lens: map[int16][]int{},
 		MaxVer: map[int16]int16{0: 7, 1: 10, 2: 1, 3: 6, 10: 1, 12: 1, 15: 4, 16: 2, 18: 0, 32: 1}}
+}
+
+// SetUnapplied: the request whose response is cut is not applied by the broker.
+func (b *TBroker) SetUnapplied(on bool) {
+	b.mu.Lock()
+	b.unapplied = on
+	b.mu.Unlock()
+}
+
+// ProduceRecords: how many records each produce request carried, in arrival order.
+func (b *TBroker) ProduceRecords() []int {
+	b.mu.Lock()
+	defer b.mu.Unlock()
+	return append([]int(nil), b.prodRecs...)
 }
 
 // SetStall: a cut response is followed by silence instead of a dropped connection.
@@ -188,6 +207,10 @@ func (b *TBroker) response(ver int16, id int32, msg protocol.Message) []byte {
 		}
 	case *produce.Request:
 		base := int64(-1)
+		b.mu.Lock()
+		drop := b.dropThis
+		b.mu.Unlock()
+		nrec := 0
 		for _, t := range req.Topics {
 			for _, p := range t.Partitions {
 				if p.RecordSet.Records == nil {
@@ -205,6 +228,10 @@ func (b *TBroker) response(ver int16, id int32, msg protocol.Message) []byte {
 					if rec.Value != nil {
 						v, _ = protocol.ReadAll(rec.Value)
 					}
+					nrec++
+					if drop {
+						continue
+					}
 					b.mu.Lock()
 					off := int64(len(b.log))
 					b.log = append(b.log, Msg{off, string(k), string(v)})
@@ -215,6 +242,9 @@ func (b *TBroker) response(ver int16, id int32, msg protocol.Message) []byte {
 				}
 			}
 		}
+		b.mu.Lock()
+		b.prodRecs = append(b.prodRecs, nrec)
+		b.mu.Unlock()
 		res = &produce.Response{Topics: []produce.ResponseTopic{{Topic: b.Topic, Partitions: []produce.ResponsePartition{{Partition: 0, BaseOffset: base, LogAppendTime: -1}}}}}
 	case *listoffsets.Request:
 		b.mu.Lock()
@@ -339,6 +369,9 @@ func (b *TBroker) serve(c net.Conn, j *TConn) {
 		if b.cluster != nil {
 			cut, k = b.cluster.arrived(key, b.ID)
 		}
+		b.mu.Lock()
+		b.dropThis = cut && b.unapplied
+		b.mu.Unlock()
 		f := b.response(ver, id, msg)
 		if f == nil {
 			return
